@@ -144,7 +144,7 @@ class Ctx:
                 shutil.copy(d, rd)
         with open(os.path.join(rd, mod + ".cfg"), "w") as f:
             f.write(cfg)
-        jopts = ["-XX:+UseParallelGC"]
+        jopts = ["-XX:+UseParallelGC", "-Xss64m"]      # deep recursive operators (sums over tables): stack depth must not depend on the JIT
         if heap:
             jopts.append("-Xmx%s" % heap)
         if deque:
